@@ -29,7 +29,7 @@ RULE = ('winnow: every list of <=5 processes with exit codes in '
         'faults: generated reference problems (5-8 leaves, 2-3 levels, '
         '10-16 genes) x 8 stage fixtures x worker index x {before,mid,after} '
         'x {raise,os._exit(3),SIGKILL,SIGTERM} with n_processors in 2..4; quick = '
-        'last worker x 9 + first worker x 3, thorough = every worker x 9 on 5 problems. '
+        'last worker x 9 + first worker x 3, thorough = every worker x 12 on 4 problems. '
         'non-trivial = winnow list with a finished process / a fault that '
         'actually fired in a stage with >=2 workers; distinct by '
         '(stage, n_workers, worker, point, mode, problem)')
@@ -483,7 +483,6 @@ def run_faults(ctx):
         plans = [(rng.randrange(2 ** 31), 5, 2),
                  (rng.randrange(2 ** 31), 7, 3),
                  (rng.randrange(2 ** 31), 8, 4),
-                 (rng.randrange(2 ** 31), 8, 2),
                  # 4 leaves = 6 pairs: the dict stages have a single worker
                  (rng.randrange(2 ** 31), 4, 3)]
     for prob_seed, n_leaves, n_proc in plans:
